@@ -54,11 +54,11 @@ pub(crate) fn append_seq_index_entry_best_effort(path: &Path, entry: &SeqSeekInd
     #[cfg(rip_verif)]
     rip_kernel::verif::point("seekidx.opened");
     let mut writer = BufWriter::new(file);
-    let Ok(line) = serde_json::to_string(entry) else {
+    let Ok(mut line) = serde_json::to_string(entry) else {
         return;
     };
+    line.push('\n');
     let _ = writer.write_all(line.as_bytes());
-    let _ = writer.write_all(b"\n");
     let _ = writer.flush();
     #[cfg(rip_verif)]
     rip_kernel::verif::point("seekidx.flushed");
